@@ -381,7 +381,8 @@ impl Monitor for C20Monitor
 
 pub fn strategy(max_rules: usize, max_ops: usize, mix: OpMix) -> impl Strategy<Value = HistoryCase>
 {
-    (gen::graph_spec(max_rules, true), gen::ops(mix, max_ops), prop_oneof![1 => Just(0u16), 1 => any::<u16>()])
+    // late-failing multi-line commands only where "a failing command writes nothing" is not assumed (delete_leaf marks C20's mix)
+    (gen::graph_spec_ext(max_rules, true, mix.delete_leaf), gen::ops(mix, max_ops), prop_oneof![1 => Just(0u16), 1 => any::<u16>()])
         .prop_map(|(graph, ops, sched_seed)| HistoryCase { graph, ops, sched_seed })
 }
 
